@@ -18,7 +18,7 @@ def eval_expression_model(expression, resolver):
 import struct
 
 from a816.parse.nodes import NodeError
-from vf.contracts.rt import ghost, ghost_get, make_file
+from vf.contracts.rt import fresh_int, ghost, ghost_get, make_file
 
 
 def assemble_string_model(self, input_program, filename, emitter):
@@ -115,3 +115,18 @@ def pairs_of_hex_model(value):
         out.append(int(value[i:i + 2], 16))
         i = i + 2
     return out
+
+
+def file_reading_constructor_model(self, a=None, b=None, c=None):
+    """BinaryNode / IncludeIpsNode / Table constructors in the expansion contracts: they read a file and fill in the new object;
+    nothing else is touched (their contents are the subject of C07 / C13 / C18).  May fail (missing file, malformed patch)."""
+    if fresh_int("file_ok") == 0:
+        raise OSError("file cannot be read")
+    return None
+
+
+def bus_map_frame_model(self, identifier, bank_range, addr_range, mask, writeable=False, mirror_bank_range=None):
+    """Bus.map in the expansion contracts: changes the bus only (C04 proves what it changes it to)."""
+    if fresh_int("map_ok") == 0:
+        raise RuntimeError("bus is not editable")
+    return None
